@@ -83,3 +83,13 @@ Print Assumptions C11_justify_paragraphs.
 Theorem C11_no_affix_default : forall (C : Classifier), no_affix [10; 10] [10] /\ no_affix [13; 10; 13; 10] [13; 10] /\ no_affix [10; 10; 10] [10].
 Proof. intros C. exact no_affix_default. Qed.
 Print Assumptions C11_no_affix_default.
+
+Theorem C11_indent_paragraphs : forall (C : Classifier) (U : Upper) level opts e ind,
+  let o := with_defaults opts in
+  1 <= level -> o_preserve o = true -> repeat_str (o_indent o) level = Ok ind ->
+  no_affix (o_parasep o) (o_linesep o) ->
+  let ps := pieces (e_text e) (o_parasep o) (o_linesep o) in
+  indent_opts level opts e =
+    Ok (with_text e (join (o_parasep o) (map (fun b => encode (indent_piece ind opts (decode b))) ps))).
+Proof. intros C U. exact indent_opts_paragraphs. Qed.
+Print Assumptions C11_indent_paragraphs.
